@@ -14,9 +14,29 @@ fn header(h: &str) -> String {
     }
 }
 
+/// the dialect value itself, not parsed from a string: the reference every other way of naming the dialect is held to
+fn dialect_value(d: &str) -> prqlc::sql::Dialect {
+    use prqlc::sql::Dialect::*;
+    match d {
+        "ansi" => Ansi, "bigquery" => BigQuery, "clickhouse" => ClickHouse, "duckdb" => DuckDb, "generic" => Generic,
+        "glaredb" => GlareDb, "mssql" => MsSql, "mysql" => MySql, "postgres" => Postgres, "redshift" => Redshift,
+        "sqlite" => SQLite, "snowflake" => Snowflake,
+        _ => Generic,
+    }
+}
+
 /// outcome of one compile: (id, stage, rq-verdict)
 fn run(src: &str, opt: &str, ids: &mut HashMap<String, i64>) -> (i64, String, String) {
-    // the option axis goes through Target::from_str, as every binding does
+    run_with(src, opt, ids, false)
+}
+
+fn run_with(src: &str, opt: &str, ids: &mut HashMap<String, i64>, canonical: bool) -> (i64, String, String) {
+    // the option axis goes through Target::from_str, as every binding does; the canonical cell of a dialect is
+    // compiled with the Dialect value constructed directly
+    if canonical {
+        let target = prqlc::Target::Sql(Some(dialect_value(opt)));
+        return compile_with(src, target, ids);
+    }
     let name = match opt {
         "absent" => None,
         "any" => Some("sql.any".to_string()),
@@ -30,6 +50,10 @@ fn run(src: &str, opt: &str, ids: &mut HashMap<String, i64>) -> (i64, String, St
             Err(_) => return (0, "target".into(), "".into()),
         },
     };
+    compile_with(src, target, ids)
+}
+
+fn compile_with(src: &str, target: prqlc::Target, ids: &mut HashMap<String, i64>) -> (i64, String, String) {
     let rq = match api::guarded(|| prqlc::prql_to_pl(src).and_then(prqlc::pl_to_rq)) {
         api::Outcome::Ok(_) => "ok".to_string(),
         api::Outcome::Err(_) => "err".to_string(),
@@ -61,7 +85,7 @@ pub fn main(args: &[String]) -> i32 {
         let mut ids: HashMap<String, i64> = HashMap::new();
         writeln!(out, "{}", json!({"event":"Program","prog":pi,"src":p})).unwrap();
         for d in api::DIALECTS {
-            let (id, stage, rq) = run(p, d, &mut ids);
+            let (id, stage, rq) = run_with(p, d, &mut ids, true);
             writeln!(out, "{}", json!({"event":"Canon","prog":pi,"dialect":d,"outcome":id,"stage":stage,"rq":rq})).unwrap();
         }
         for c in &cells {
